@@ -400,12 +400,18 @@ def conc_run(pid, profile, oracle, nq, nt, steps=(20, 40, 80), stress=None):
                 continue
             w = json.load(open(os.path.join(corpus_dir, fn)))
             lines = E.model_labels(w["config"], w["labels"], w.get("locked", False))
-            r = E.run_schedule(lines, short_ms=250, long_ms=3000)
+            cur = bool(w.get("locked", False))     # a schedule of the CURRENT protocol (regression probe) or of a refuted variant
+            r = E.run_schedule(lines, short_ms=250, long_ms=5000 if cur else 3000, keep_going=cur)
             n_corpus += 1
             bad = oracle(lines, r["out"], r["complete"] and not r["mismatch"])
             if bad:
-                ctx.violation(f"the implementation follows the refutation schedule {fn} ({w['what']}): " + "; ".join(bad)[:600],
+                ctx.violation((f"regression schedule {fn}: " if cur else f"the implementation follows the refutation schedule {fn} ({w['what']}): ")
+                              + "; ".join(bad)[:600],
                               dict(engine="C", schedule=lines, harness_output=r["out"][-40:], witness=fn))
+            elif cur and (r["mismatch"] or not r["complete"]):
+                ctx.violation(f"correspondence broken on regression schedule {fn}: {str(r['mismatch'])[:400]}; no input violating the "
+                              f"property was found", dict(engine="C", schedule=lines, harness_output=r["out"][-40:],
+                                                         theorem_or_correspondence="engine C: " + fn), no_input=True)
         # 1b. known findings are re-demonstrated by their schedule on every run
         for kf in ctx.known:
             if not kf["probe"].endswith(".json"):
@@ -517,12 +523,24 @@ def sched_truth(lines):
             for _ in range(int(t[2]) if len(t) > 2 else 1):
                 frames[rank] = dict(ctx=int(t[1]), eph=False, ok=True, pre=True); bcast_line[rank] = -1; commit_line[rank] = -1; rank += 1
         elif t[0] == "writer":
-            wp[int(t[1])] = [(int(p.split(":")[0]), p.split(":")[1] == "e", p.split(":")[2] == "ok") for p in t[2:]]
+            wp[int(t[1])] = []
+            for p in t[2:]:
+                p, _, reps = p.partition("*")
+                wp[int(t[1])] += [(int(p.split(":")[0]), p.split(":")[1] == "e", p.split(":")[2] == "ok")] * (int(reps) if reps else 1)
             wnext[int(t[1])] = 0
         elif t[0] == "follower":
             fol[int(t[1])] = dict(follow=t[2] == "1", tail=t[3] == "1", last=None if t[4] == "-" else int(t[4]),
                                   limit=None if t[5] == "-" else int(t[5]), ctx=None if t[6] == "-" else int(t[6]),
                                   pulse=t[7] != "-")
+        elif t[0] == "go" and t[1] == "burst":
+            w = int(t[2])
+            nxt = max(frames) + 1 if frames else 0
+            while wnext[w] < len(wp[w]):
+                c, eph, ok = wp[w][wnext[w]]; wnext[w] += 1
+                frames[nxt] = dict(ctx=c, eph=eph, ok=ok, pre=False)
+                if ok:
+                    commit_line[nxt] = ln; bcast_line[nxt] = ln
+                nxt += 1
         elif t[0] == "go":
             exp = t[t.index("=>") + 1:] if "=>" in t else []
             for e in exp:
@@ -576,6 +594,20 @@ def follow_oracle(which):
                         missing = [r for r in stored if r not in reals]
                         if missing:
                             bad.append(f"follower {k}: stored in-scope frames {missing} were never delivered (delivered {reals})")
+            if which in ("C11", "C03"):
+                # never a silent gap: once a stored in-scope frame after the first delivered one is skipped,
+                # nothing later may be delivered (the stream has to end instead)
+                if k in sub_line and reals:
+                    stored = sorted(r for r, f in frames.items() if f["ok"] and not f["eph"] and scope(r)
+                                    and commit_line.get(r, 10 ** 9) < 10 ** 9)
+                    got = set(reals)
+                    first = reals[0]
+                    for r in reals:
+                        skipped = [x for x in stored if first < x < r and x not in got]
+                        if skipped and not o["tail"]:
+                            bad.append(f"follower {k} continued past frames it never delivered: got #{r} although {len(skipped)} "
+                                       f"stored in-scope frames before it (e.g. {skipped[:3]}) were skipped")
+                            break
             if which == "C11":
                 if o["limit"] is not None and len(reals) > o["limit"]:
                     bad.append(f"follower {k}: limit={o['limit']} but {len(reals)} frames were delivered: {reals}")
